@@ -675,6 +675,30 @@ func c06R4(ic *IC, r *Report) {
 					condOK = true
 				}
 			}
+			// a panic raised by a deferred call is recorded in frame.recovered while the loop runs:
+			// nothing leaves the unwinding function between the loop and the test of recovered
+			{
+				var condIf ast.Node
+				for _, p := range enclosingPath(fl.Body, repanic) {
+					if ifs, ok := p.(*ast.IfStmt); ok && ifs.Cond == panicCond {
+						condIf = ifs
+					}
+				}
+				early := ""
+				if condIf != nil {
+					ast.Inspect(fl.Body, func(q ast.Node) bool {
+						if _, ok := q.(*ast.FuncLit); ok && q != ast.Node(fl) {
+							return false
+						}
+						if rs, ok := q.(*ast.ReturnStmt); ok && rs.Pos() > loop.End() && rs.Pos() < condIf.Pos() {
+							early = ic.pos(rs.Pos())
+						}
+						return true
+					})
+				}
+				r.Check(condIf != nil && early == "", "R06.4", key+"/no-exit-between-deferred-and-repanic", pos, "no return between the loop over the deferred records and the test of recovered",
+					"the unwinding function returns at "+early+", after running the deferred calls and before testing frame.recovered: a panic raised by a deferred call while the function returns normally is recorded there and then dropped - the function returns to its caller as if nothing happened")
+			}
 			r.Check(condOK, "R06.4", key+"/repanic-cond", pos, "re-panic only when recovered != nil",
 				"panic(recovered) is not guarded by recovered != nil (condition: "+types.ExprString(panicCond)+")")
 			return false
